@@ -138,7 +138,7 @@ def c15(ctx):
     absorb_game(ctx, bad3, {"EngineMove"})
     ctx.extra["odds_game_book_nodes"] = h3
     # long capture-free histories: the engine asked beyond the move-count draw and beyond the third recurrence
-    bad4, ev4, h4 = run_game_traces(ctx, "longgame", 1, 0, 0, extra=["--rounds", 30 if quick else 70])
+    bad4, ev4, h4 = run_game_traces(ctx, "longgame", 1, 0, 0, extra=["--rounds", 27 if quick else 70])
     absorb_game(ctx, bad4, {"EngineMove"})
     ctx.evaluations += ev + ev2 + ev3 + ev4
     ctx.nontrivial += hist + h2 + h3 + h4
